@@ -7,15 +7,21 @@
 (*   consumed   bytes handed to the protocol layer (always a packet boundary)                    *)
 (*   nout       packets handed out; packet k occupies stream positions Start(k)+1 .. Start(k+1)  *)
 (* A declared length < 4 or > maxLen is a protocol error: the connection is closed.              *)
+(* A read may also end on its deadline without data (ReadTimeout > 0, action Timeout): nothing   *)
+(* changes, the partial packet stays.  A connection may die wherever its stream happens to be,   *)
+(* also inside a packet (action Cut); the next connection (the client reconnects on its next     *)
+(* Send, the peer dials the server again) starts with an empty buffer: conn counts connections,  *)
+(* the positions are those of the current one.                                                   *)
 EXTENDS Integers, Sequences, FiniteSets, TLC
 CONSTANTS LensChoices,   \* set of sequences of declared packet lengths
           MaxLenChoices, \* set of maximum packet lengths
           ChunkMax,      \* largest number of bytes one read returns
-          Junk           \* bytes the peer sends after an illegal header (never framed)
-VARIABLES lens, maxLen, delivered, consumed, nout, pc, closed
-vars == <<lens, maxLen, delivered, consumed, nout, pc, closed>>
+          JunkChoices,   \* numbers of bytes the peer may send after an illegal header (never framed; 0: the header ends the stream)
+          MaxConns       \* number of successive connections
+VARIABLES lens, maxLen, junk, delivered, consumed, nout, pc, closed, conn
+vars == <<lens, maxLen, junk, delivered, consumed, nout, pc, closed, conn>>
 Legal(d) == d >= 4 /\ d <= maxLen
-Phys(d) == IF Legal(d) THEN d ELSE 4 + Junk
+Phys(d) == IF Legal(d) THEN d ELSE 4 + junk
 RECURSIVE SumPhys(_, _)
 SumPhys(s, k) == IF k = 0 THEN 0 ELSE SumPhys(s, k - 1) + Phys(s[k])
 Total == SumPhys(lens, Len(lens))
@@ -25,23 +31,34 @@ FirstBad == IF \E k \in 1..Len(lens) : ~Legal(lens[k]) THEN CHOOSE k \in 1..Len(
             ELSE Len(lens) + 1
 Min(a, b) == IF a < b THEN a ELSE b
 
-Init == /\ lens \in LensChoices /\ maxLen \in MaxLenChoices
+Init == /\ lens \in LensChoices /\ maxLen \in MaxLenChoices /\ junk \in JunkChoices /\ conn = 1
         /\ delivered = 0 /\ consumed = 0 /\ nout = 0 /\ pc = "reading" /\ closed = FALSE
 \* one read returns n more bytes of the stream
 Deliver(n) == /\ pc = "reading" /\ ~closed /\ n >= 1 /\ n <= Min(ChunkMax, Total - delivered)
               /\ delivered' = delivered + n /\ pc' = "scan"
-              /\ UNCHANGED <<lens, maxLen, consumed, nout, closed>>
+              /\ UNCHANGED <<lens, maxLen, junk, conn, consumed, nout, closed>>
 Avail == delivered - consumed
 \* the scan loop, one iteration per step
 ScanLess == /\ pc = "scan" /\ (Avail < 4 \/ (Legal(lens[nout + 1]) /\ Avail < lens[nout + 1]))
-            /\ pc' = "reading" /\ UNCHANGED <<lens, maxLen, delivered, consumed, nout, closed>>
+            /\ pc' = "reading" /\ UNCHANGED <<lens, maxLen, junk, conn, delivered, consumed, nout, closed>>
 ScanFull == /\ pc = "scan" /\ Avail >= 4 /\ Legal(lens[nout + 1]) /\ Avail >= lens[nout + 1]
             /\ nout' = nout + 1 /\ consumed' = consumed + lens[nout + 1]
             /\ pc' = IF Avail - lens[nout + 1] > 0 THEN "scan" ELSE "reading"
-            /\ UNCHANGED <<lens, maxLen, delivered, closed>>
+            /\ UNCHANGED <<lens, maxLen, junk, conn, delivered, closed>>
 ScanError == /\ pc = "scan" /\ Avail >= 4 /\ ~Legal(lens[nout + 1])
-             /\ closed' = TRUE /\ pc' = "closed" /\ UNCHANGED <<lens, maxLen, delivered, consumed, nout>>
-Next == (\E n \in 1..ChunkMax : Deliver(n)) \/ ScanLess \/ ScanFull \/ ScanError
+             /\ closed' = TRUE /\ pc' = "closed" /\ UNCHANGED <<lens, maxLen, junk, conn, delivered, consumed, nout>>
+\* a read ends on its deadline without data: the loop goes round with everything as it was (the partial packet is kept)
+Timeout == pc = "reading" /\ ~closed /\ UNCHANGED vars
+\* everything that is complete in the bytes read so far has been dealt with: the receiver sits in (or has left for good) conn.Read
+Settled == pc \in {"reading", "closed"}
+\* the connection dies - at a packet boundary, inside a header, inside a payload, after a protocol error - and nothing of it is left
+Cut == /\ Settled /\ conn < MaxConns
+       /\ conn' = conn + 1 /\ lens' = <<>> /\ junk' = 0
+       /\ delivered' = 0 /\ consumed' = 0 /\ nout' = 0 /\ pc' = "dead" /\ closed' = FALSE /\ UNCHANGED maxLen
+\* the next connection (the client reconnects on its next Send, the peer dials the server again) starts from nothing with a stream of its own
+Open == /\ pc = "dead" /\ lens' \in LensChoices /\ junk' \in JunkChoices /\ pc' = "reading"
+        /\ UNCHANGED <<maxLen, delivered, consumed, nout, closed, conn>>
+Next == (\E n \in 1..ChunkMax : Deliver(n)) \/ ScanLess \/ ScanFull \/ ScanError \/ Timeout \/ Cut \/ Open
 Spec == Init /\ [][Next]_vars /\ WF_vars(Next)
 
 \* ---------------------------------------------------------------- properties (C07)
@@ -51,5 +68,7 @@ OnlyLegalOut == nout < FirstBad                            \* nothing at or afte
 ClosedOnlyOnError == closed => (nout = FirstBad - 1 /\ FirstBad <= Len(lens))
 NoPrematureWait == (pc = "reading" /\ ~closed) => (Avail < 4 \/ ~(Legal(lens[nout + 1]) /\ Avail >= lens[nout + 1]))   \* a complete packet is never left in the buffer
 \* every legal packet before the first illegal one is eventually handed out; an illegal one closes the connection
-AllDelivered == <>(nout = FirstBad - 1 /\ (FirstBad <= Len(lens) => closed))
+\* (on every connection that is not cut short)
+Done == nout = FirstBad - 1 /\ (FirstBad <= Len(lens) => closed)
+AllDelivered == \A c \in 1..MaxConns : (conn = c) ~> (conn > c \/ Done)
 =============================================================================
